@@ -155,9 +155,17 @@ func (te *TwitterExtractor) getTweetIdFromURL(tweetURL string) string {
 		return ""
 	}
 
-	// Tweet ID will be the last part of the path, account
-	// for possible tail slash/empty path sections.
+	// Tweet ID is the part of the path after "status" (what follows it names
+	// a photo or a video of the tweet: .../status/123/photo/1).
 	pathParts := strings.Split(parsedURL.Path, "/")
+	for i := 0; i < len(pathParts)-1; i++ {
+		if part := strings.TrimSpace(pathParts[i+1]); (pathParts[i] == "status" || pathParts[i] == "statuses") && part != "" {
+			return part
+		}
+	}
+
+	// Otherwise it will be the last part of the path, account
+	// for possible tail slash/empty path sections.
 	for i := len(pathParts) - 1; i >= 0; i-- {
 		part := strings.TrimSpace(pathParts[i])
 		if part != "" {
